@@ -262,10 +262,12 @@ def check(model, rep):
     rep.rule('R04.3', 'getQuat/setQuat: same scipy convention (default scalar-last), same 3x3 block, setQuat syncs')
     gq, sq = M('getQuat'), M('setQuat')
     r = returns_of(gq)
-    g_ok = bool(r) and all(x.value is not None and src(x.value).replace(' ', '') == 'R.from_matrix(self.TM[0:3,0:3]).as_quat()' for x in r)
+    il_g, il_s = Inliner(gq), Inliner(sq)
+    G_OK = ('R.from_matrix(self.TM[0:3,0:3]).as_quat()', 'R.from_matrix(self.gRot()).as_quat()', 'R.from_matrix(self.TM[0:3,0:3].copy()).as_quat()')
+    g_ok = bool(r) and all(x.value is not None and il_g.text(x.value, canon=False) in G_OK for x in r)      # temporaries resolved
     st = [x for x in walk_own(sq.node) if isinstance(x, ast.Assign) and src(x.targets[0]).startswith('self.')]
-    s_ok = len(st) == 1 and src(st[0].targets[0]).replace(' ', '') == 'self.TM[0:3,0:3]' and \
-        src(st[0].value).replace(' ', '') == 'R.from_quat(%s).as_matrix()' % sq.params[1]
+    s_ok = len(st) == 1 and norm_text(st[0].targets[0]) == 'self.TM[0:3,0:3]' and \
+        il_s.text(st[0].value, canon=False) == 'R.from_quat(%s).as_matrix()' % sq.params[1]
     sync = any(isinstance(c, ast.Call) and src(c.func) == 'self.TMtoTAA' for c in walk_own(sq.node))
     rep.ob('R04.3', gq, 'as_quat() of the rotation block', g_ok, 'getQuat is %s' % (src(r[0].value) if r else '?'))
     rep.ob('R04.3', sq, 'rotation block = from_quat(q).as_matrix(), then TMtoTAA()', s_ok and sync,
